@@ -135,6 +135,11 @@ void muggle_async_logger_log(
 
 	// payload
 	char *payload = (char*)malloc(MUGGLE_LOG_MSG_MAX_LEN);
+	if (payload == NULL)
+	{
+		async_logger->p_free(msg);
+		return;
+	}
 	va_list args;
 
 	va_start(args, format);
